@@ -102,6 +102,9 @@ QUERIES = [
     # scheduling points inside compilation, before and after the placeholders are bound; same text, different parameters
     ("SELECT ctick('a'), account, number WHERE number > %(min)s AND ctick('b') = 'b' AND number < %(max)s ORDER BY number", {'min': 10, 'max': 100000}),
     ("SELECT ctick('a'), account, number WHERE number > %(min)s AND ctick('b') = 'b' AND number < %(max)s ORDER BY number", {'min': 100, 'max': 1000}),
+    # results that depend on how exact ties are rounded: whatever governs that must not be per-thread ambient state (the serial
+    # reference runs in the importing thread, the concurrent executions in worker threads)
+    ("SELECT tick(account), round(number / 8, 1), round(2.5), round(0.125, 2), round(number / 4) WHERE number > 0", None),
 ]
 
 
@@ -171,7 +174,7 @@ def run(tier, seed):
     combos = list(itertools.combinations_with_replacement(range(n), 2)) + [(0, 2, 4), (1, 3, 5), (0, 0, 0), (2, 2, 1), (6, 6, 1), (7, 8, 7)]
     nrand = 2 if tier == 'quick' else 40
     if tier == 'quick':
-        combos = [c for i, c in enumerate(combos) if i % 2 == 0 or len(c) == 3 or c in ((6, 6), (7, 8), (1, 6), (3, 7))]
+        combos = [c for i, c in enumerate(combos) if i % 2 == 0 or len(c) == 3 or c in ((6, 6), (7, 8), (1, 6), (3, 7), (9, 9), (0, 9))]
     jobs = []
     for qidx in combos:
         k = len(qidx)
